@@ -622,7 +622,7 @@ def reference(veryl, work, prjs):
     ref = {}
     for prj in prjs:
         wipe_outputs(prj)
-        p = subprocess.run([veryl, "build"], cwd=prj, env=base_env(work), capture_output=True, text=True, timeout=600)
+        p = subprocess.run([veryl, "build"], cwd=prj, env=base_env(work), capture_output=True, text=True, timeout=1800)
         ref[prj] = (p.returncode, snapshot(prj))
         wipe_outputs(prj)
     shutil.rmtree(os.path.join(work, "xdg"), ignore_errors=True)
@@ -634,17 +634,25 @@ def diff_snap(a, b):
     return [k for k in keys if a.get(k) != b.get(k)][:8]
 
 
+_REF = {}
+
+
 def e1_std_race(veryl, work, hold_gate="std-file-written"):
-    """A is parked inside the std expansion after its first file; B (another project, same user cache) runs.
+    """A is parked inside veryl_std::expand at `hold_gate`; B (another project, same user cache) runs.
     Returns dict with verdict."""
     prjA, prjB = os.path.join(work, "prjA"), os.path.join(work, "prjB")
     for p, n in ((prjA, "pa"), (prjB, "pb")):
         if not os.path.exists(p):
             make_project(p, n)
-    ref = reference(veryl, work, [prjA, prjB])
+    if "E1" not in _REF:
+        _REF["E1"] = reference(veryl, work, [prjA, prjB])
+    ref = _REF["E1"]
     if any(rc != 0 for rc, _ in ref.values()):
         return {"verdict": "setup", "what": "the clean reference build fails", "ref": {k: v[0] for k, v in ref.items()}}
-    gate = os.path.join(work, "gateE1")
+    for p in (prjA, prjB):
+        wipe_outputs(p)
+    shutil.rmtree(os.path.join(work, "xdg"), ignore_errors=True)
+    gate = os.path.join(work, "gateE1" + hold_gate)
     shutil.rmtree(gate, ignore_errors=True)
     os.makedirs(gate)
     envA = base_env(work)
@@ -652,32 +660,35 @@ def e1_std_race(veryl, work, hold_gate="std-file-written"):
     envB = base_env(work)
     envB.update({"VERYL_VERIF_GATE": gate})
     A = Proc(veryl, prjA, envA, "E1-A")
-    parked = wait_for(lambda: os.path.exists(os.path.join(gate, "%s.at.%d" % (hold_gate, A.pid))) or A.done(), 180)
+    parked = wait_for(lambda: os.path.exists(os.path.join(gate, "%s.at.%d" % (hold_gate, A.pid))) or A.done(), 900)
     if A.done() or not parked:
         A.wait(1)
         return {"verdict": "steering", "what": "process A never reached gate %s (hooks missing?)" % hold_gate, "A": A.tail()}
     B = Proc(veryl, prjB, envB, "E1-B")
     atB = lambda n: os.path.exists(os.path.join(gate, "%s.at.%d" % (n, B.pid)))
     # B either finishes (it did not wait for A) or arrives at the lock (std-absent) and blocks
-    wait_for(lambda: B.done() or atB("std-absent"), 240)
+    inside = hold_gate in ("std-locked", "std-file-written")      # A is parked holding the std lock
+    wait_for(lambda: B.done() or (inside and atB("std-absent")), 300)
     overlapped = B.done()
-    if not overlapped:
+    if inside and not overlapped:
         # give B a moment: it must NOT get the lock while A is parked inside
         time.sleep(0.5)
         if atB("std-locked") and not B.done():
             open(os.path.join(gate, hold_gate + ".go"), "w").close()
-            A.wait(300), B.wait(300)
+            A.wait(1800), B.wait(1800)
             return {"verdict": "violation", "key": "std-expand-lock-not-exclusive",
                     "what": "process B entered the std expansion section while process A was parked inside it"}
-    schedule = ["A: expand() until after the first std file is written (parked, lock held)",
+    schedule = ["A: veryl_std::expand() parked at gate `%s`" % hold_gate,
                 "B: build of another project with the same user cache: " +
                 ("ran to completion while A was parked" if overlapped else "blocked at the std lock")]
     rcB_early = B.p.returncode if overlapped else None
     snapB_early = snapshot(prjB) if overlapped else None
     open(os.path.join(gate, hold_gate + ".go"), "w").close()
-    rcA = A.wait(600)
-    rcB = B.wait(600)
+    rcA = A.wait(1800)
+    rcB = B.wait(1800)
     res = {"verdict": "ok", "schedule": schedule, "overlapped": overlapped, "rcA": rcA, "rcB": rcB}
+    if "timeout" in (rcA, rcB):
+        return {"verdict": "steering", "what": "a veryl process did not finish within 30 min (machine overloaded?)", **res}
     for tag, prj, rc, snap in (("A", prjA, rcA, snapshot(prjA)), ("B", prjB, rcB_early if overlapped else rcB,
                                                                   snapB_early if overlapped else snapshot(prjB))):
         rrc, rsnap = ref[prj]
@@ -705,22 +716,24 @@ def e2_two_builds(veryl, work):
     envB = base_env(work)
     envB.update({"VERYL_VERIF_GATE": gate})
     A = Proc(veryl, prj, envA, "E2-A")
-    parked = wait_for(lambda: os.path.exists(os.path.join(gate, "build-locked.at.%d" % A.pid)) or A.done(), 180)
+    parked = wait_for(lambda: os.path.exists(os.path.join(gate, "build-locked.at.%d" % A.pid)) or A.done(), 900)
     if A.done() or not parked:
         A.wait(1)
         return {"verdict": "steering", "what": "process A never reached gate build-locked (hooks missing?)", "A": A.tail()}
     B = Proc(veryl, prj, envB, "E2-B")
     atB = lambda n: os.path.exists(os.path.join(gate, "%s.at.%d" % (n, B.pid)))
-    wait_for(lambda: atB("build-lock-wait") or B.done(), 180)
+    wait_for(lambda: atB("build-lock-wait") or B.done(), 900)
     wait_for(lambda: atB("build-locked") or B.done(), 1.0)
     entered = atB("build-locked") or B.done()
     open(os.path.join(gate, "build-locked.go"), "w").close()
-    rcA, rcB = A.wait(600), B.wait(600)
+    rcA, rcB = A.wait(1800), B.wait(1800)
     if entered:
         return {"verdict": "violation", "key": "build-lock-not-exclusive",
                 "what": "a second `veryl build` of the same project got past the .build lock while the first one held it"}
     rrc, rsnap = ref[prj]
     snap = snapshot(prj)
+    if "timeout" in (rcA, rcB):
+        return {"verdict": "steering", "what": "a veryl process did not finish within 30 min (machine overloaded?)"}
     if rcA != rrc or rcB != rrc or snap != rsnap:
         return {"verdict": "violation", "key": "two-builds-differ",
                 "what": "two serialised builds of one project: exit codes %s/%s, outputs differ from a clean build: %s" % (
@@ -739,6 +752,14 @@ def run(tier, seed, replay):
         "theorems are about 2-3 processes running straight-line programs of primitives (protocol skeleton)",
         "kernel scheduling is not explored on the real code: steered interleavings E1-E4 only",
         "no crashes (C05), no NFS / Windows sharing semantics"]
+    res.coverage["explanation"] = (
+        "Coq proof about a protocol MODEL plus steered executions of the real code. Proof: for all interleavings of finite "
+        "systems (2-3 processes) whose programs are regenerated from the Rust sources by translator T7 (order of exists / "
+        "create_dir_all / lock / try_lock / write / rename / unlock), no torn read of atomically written files, mutual exclusion "
+        "of store sections and output writes, language server never blocked, complete reads after std expansion and dependency "
+        "checkout (certificate check verified in Coq, Props/C30.v). Execution only: experiments E1-E4 drive two real veryl "
+        "processes / real locks and threads along chosen interleavings and compare with a clean build. Not covered: other "
+        "interleavings on the real code, more processes, crashes.")
     res.coverage["what_is_proof"] = "Props/C30.v: all interleavings of the model systems (certificate check verified in Coq)"
     res.coverage["what_is_execution_only"] = "E1 std expansion race, E2 .build lock, E3 try_open probe, E4 atomic_write probe"
     toks = write_programs(res)
@@ -764,13 +785,15 @@ def run(tier, seed, replay):
             rp = json.load(open(replay))
             exps = [rp.get("experiment", "E1")]
         else:
-            exps = ["E1", "E1b", "E2", "E3", "E4"]
+            exps = ["E1", "E1b", "E1c", "E2", "E3", "E4"]
         n_exec = 0
         for ex in exps:
             if ex == "E1":
                 r = e1_std_race(veryl, work)
             elif ex == "E1b":
                 r = e1_std_race(veryl, work, hold_gate="std-locked")
+            elif ex == "E1c":
+                r = e1_std_race(veryl, work, hold_gate="std-absent")
             elif ex == "E2":
                 r = e2_two_builds(veryl, work)
             elif ex == "E3":
@@ -811,8 +834,8 @@ def run(tier, seed, replay):
                               no_input=True)
         res.coverage["evaluations"] = n_exec
         res.coverage["distinct_nontrivial"] = n_exec
-        res.coverage["rule"] = ("steered two-process executions of the real code (E1/E1b: A parked after the first std file / right "
-                                "after taking the std lock, B free; E2: A parked holding .build lock; E3 lock probe; E4 atomic_write "
+        res.coverage["rule"] = ("steered two-process executions of the real code (E1/E1b/E1c: A parked after the first std file / "
+                                "right after taking the std lock / right after the first existence test, B free; E2: A parked holding .build lock; E3 lock probe; E4 atomic_write "
                                 "vs reader threads); model side: every interleaving of the Coq systems (counts in model_states)")
         if proved:
             names = ["aw_system", "builds_system", "ls_system_build", "ls_system_two", "dep_system", "std_system2",
